@@ -214,6 +214,15 @@ func GenSProgram(t *rapid.T, cfg SGenCfg) SProgram {
 		case "race":
 			p.Ops = append(p.Ops, SOp{K: "race", Node: rapid.IntRange(1, 3).Draw(t, "writers"), N: int64(rapid.IntRange(3, 40).Draw(t, "per")),
 				Reps: rapid.IntRange(1, 3).Draw(t, "snaps"), Off: int64(rapid.IntRange(0, 3000).Draw(t, "delay")), Len: int64(rapid.IntRange(0, 2000).Draw(t, "spacing"))})
+		case "ctlrevert":
+			o := SOp{K: "ctlrevert", N: int64(rapid.IntRange(0, 7).Draw(t, "which"))}
+			if cfg.RestFail && rapid.IntRange(0, 3).Draw(t, "rvfail") == 0 {
+				nf := rapid.IntRange(1, nodes).Draw(t, "nrvfail")
+				o.Fail = rapid.Permutation(seqInts(nodes)).Draw(t, "rvfailperm")[:nf]
+			}
+			p.Ops = append(p.Ops, o)
+		case "ctldelsnap":
+			p.Ops = append(p.Ops, SOp{K: "ctldelsnap", N: int64(rapid.IntRange(0, 7).Draw(t, "which"))})
 		case "snaprace":
 			off := rapid.Int64Range(0, total-1).Draw(t, "off")
 			p.Ops = append(p.Ops, SOp{K: "snaprace", Node: rapid.IntRange(0, nodes-1).Draw(t, "node"), Off: off,
